@@ -22,6 +22,7 @@ import (
 	rangeplugin "github.com/coredhcp/coredhcp/plugins/range"
 	"github.com/insomniacslk/dhcp/dhcpv4"
 
+	"verifmc/checks/c16"
 	"verifmc/ev"
 	"verifmc/explore"
 	"verifmc/pkt"
@@ -456,7 +457,7 @@ func run(r *ev.Run, id string) {
 	}
 }
 
-var runSched = func(r *ev.Run) {}
+var runSched = c16.SchedPart("C02", 4)
 var runCrashPoints = func(r *ev.Run) {}
 
 func sweeps(r *ev.Run, id string) {
@@ -534,6 +535,14 @@ func sweeps(r *ev.Run, id string) {
 }
 
 func replayCase(r *ev.Run, id string, raw json.RawMessage) {
+	var sc struct {
+		Scenario string `json:"scenario"`
+		Schedule []int  `json:"schedule"`
+	}
+	if json.Unmarshal(raw, &sc) == nil && sc.Scenario != "" {
+		c16.ReplaySchedule(r, id, sc.Scenario, sc.Schedule)
+		return
+	}
 	var c Case
 	if err := json.Unmarshal(raw, &c); err != nil {
 		r.Violate(id+"/replay/bad-file", err.Error(), nil)
